@@ -50,15 +50,17 @@ def fft_register_offset(a: np.ndarray, b: np.ndarray) -> tuple[int, ...]:
         offset of 'b' from 'a' in pixels
     """
     s = np.array(a.shape) + b.shape - 1
+    a_shape = np.array(a.shape)
 
     a = np.pad(a, np.stack((np.zeros(a.ndim, dtype=int), s - a.shape), axis=1))
     b = np.pad(b, np.stack((np.zeros(b.ndim, dtype=int), s - b.shape), axis=1))
 
     # pass the shape, the default output is one short when the last axis is odd
     xcorr = np.fft.irfftn(np.fft.rfftn(a) * np.fft.rfftn(b).conj(), s=s)
-    xcorr = np.fft.fftshift(xcorr)
 
-    return np.unravel_index(np.argmax(xcorr), xcorr.shape) - np.array(xcorr.shape) // 2
+    # offsets up to the size of a are stored first, negative offsets wrap to the end
+    idx = np.array(np.unravel_index(np.argmax(xcorr), xcorr.shape))
+    return np.where(idx < a_shape, idx, idx - s)
 
 
 def overlap_arrays(
